@@ -282,6 +282,26 @@ func (propC10) Gen(r *Rng, run uint64, tier string) *Plan {
 	for i := 1; i <= 3; i++ {
 		p.Variants = append(p.Variants, genVariant(vr.SubN("v", uint64(i)), []int{n}, -1, true, false))
 	}
+	if wr := r.Sub("warmup"); wr.Bool(0.25) {
+		// A long-lived Engine: in some variants the engine that answers has evaluated this
+		// query, or an ungrouped count over the same selection, before. Series identity
+		// must not depend on what earlier evaluations grouped by.
+		for i := 1; i < len(p.Variants); i++ {
+			if !wr.Bool(0.6) {
+				continue
+			}
+			p.Variants[i].Warmup = 1 + wr.Intn(2)
+			if wr.Bool(0.3) {
+				// a sibling over the same selection: ungrouped, or grouped at the range by other labels
+				p.Variants[i].WarmupQuery = Pick(wr, []string{
+					"count_over_time(" + qs.Sel + " [30s])",
+					"max_over_time(" + qs.Sel + " | unwrap weight [30s]) by (container, tier)",
+					"sum without (msg, tier) (count_over_time(" + qs.Sel + " [30s]))",
+				})
+			}
+		}
+		p.Tags["warmup"] = "1"
+	}
 	return p
 }
 
@@ -602,6 +622,7 @@ func (propC10) Check(t *testing.T, p *Plan, st *Stats) *Violation {
 		if st != nil {
 			st.NoteOutcome(o)
 			st.ProbeIf(p.Variants[vi].MapSeed != 0, "nonidentity_map_order")
+			st.ProbeIf(p.Variants[vi].Warmup > 0 && o.WarmupOpens > 0, "engine_reused_after_earlier_evaluations")
 		}
 		if o.Panic != "" {
 			return viol(vi, "C10(panic)", "no panic", clip(o.Panic, 600))
